@@ -399,10 +399,23 @@ var c06Families = []c06Family{
 		if strings.Contains(b.String(), "range") {
 			return fw.Result{Verdict: fw.Skip}
 		}
+		// line endings of every kind, with and without one at the end of the file; some files are long enough for a
+		// line end to fall on any offset around a 4096-byte read boundary
+		text := b.String()
+		eol := []string{"\n", "\r\n", "\r", "\n"}[ctx.Rng.Intn(4)]
+		text = strings.ReplaceAll(text, "\n", eol)
+		if ctx.Rng.P(1, 3) {
+			text = strings.TrimSuffix(text, eol)
+		}
+		if k%5 == 0 {
+			pad := 4096 - 12 + ctx.Rng.Intn(24) - len("// ") - len(eol)
+			text = "// " + strings.Repeat("x", pad) + eol + text
+		}
+		ctx.Cell("globals-eol:" + strings.NewReplacer("\r", "CR", "\n", "LF").Replace(eol))
 		armRenderBudget()
-		m, err := soy.ParseGlobals(strings.NewReader(b.String()))
+		m, err := soy.ParseGlobals(strings.NewReader(text))
 		ctx.Cell("entry:ParseGlobals")
-		ctx.Eval("globals:" + b.String())
+		ctx.Eval("globals:" + text)
 		if err != nil {
 			ctx.Obs("globals_errors", 1)
 		} else {
